@@ -99,6 +99,20 @@ Example C15_example_addresses :
   incr [3; 4]%Z [1; 3]%Z = [2; 0]%Z /\ index_ok [3; 4]%Z (incr [3; 4]%Z [2; 3]%Z) = false.
 Proof. repeat split; try (repeat constructor; lia); vm_compute; reflexivity. Qed.
 
+(* Gathered vector variables (gatherVectorColvars, weights): at every step the iv-th components of the variables
+   form the iv-th sample, with weight weights[iv]; the histogram holds, element by element and in total, the
+   weights of the samples taken at eligible steps (can_accumulate_data) whose bin vector is in range. *)
+Theorem C15_gathered_vector_histogram : forall (c : hist_cfg (T := R)) (weights : list R)
+    (steps : list (Z * bool * list (list R))) (a : nat),
+  all_pos (h_nx c) ->
+  let h := map (fun st => mkHistIn (fst (fst st)) (snd (fst st)) (gather Rops (snd st) weights)) steps in
+  (forall vars iv, (iv < length weights)%nat ->
+     nth iv (gather Rops vars weights) ([], 0%R) = (map (fun v => nth iv v 0%R) vars, nth iv weights 0%R)) /\
+  nth a (hist_run Rops true c h) 0%R = lsum (map (weight_at c a) (eligible_samples c true h)) /\
+  lsum (hist_run Rops true c h) = lsum (map (weight_in c) (eligible_samples c true h)).
+Proof. exact gathered_vector_histogram. Qed.
+Print Assumptions C15_gathered_vector_histogram.
+
 (* ===================== second half: grid files (model in GridIOModel.v) =====================
    Grids are written to / read from lists of abstract tokens; a number is a value of the carrier (the
    decimal formatting of numbers and its rounding are outside the model: the theorems say that the
@@ -254,3 +268,61 @@ Example C15_example_regrid :
   gr_mult g = 1%Z /\ (0 < gnd g)%nat /\ Forall (fun rc : list R * R => length (fst rc) = gnd g) [([5 / 2], 7)]%R /\
   (length [([5 / 2], 7)]%R < 2)%nat.
 Proof. cbn. repeat split; try lia. repeat constructor. Qed.
+
+(* ===================== round 3: numbers, unformatted form, count-normalised grids =====================
+   Decimal formatting.  A number written with p significant digits and read back is the nearest multiple of
+   10^(e-p+1) (10^e <= |x|): |read(write x) - x| <= 1/2 * 10^(1-p) * |x| (p = 15 for setprecision(14) in scientific
+   notation: multicolumn files and raw data in a state; p = 14 for the boundaries and widths of the restart form).
+   So the formatted forms return the same numbers up to that bound, exactly only for numbers with at most p digits. *)
+Theorem C15_decimal_roundtrip_error : forall (p fuel : nat) (x : R),
+  (powerRZ 10 (- Z.of_nat fuel) <= Rabs x \/ x = 0)%R ->
+  (Rabs (dec_round Rops p fuel x - x) <= / 2 * powerRZ 10 (1 - Z.of_nat p) * Rabs x)%R.
+Proof. exact dec_round_err. Qed.
+Print Assumptions C15_decimal_roundtrip_error.
+
+(* the raw form with every number formatted at p digits: each element comes back as its rounded value, in its
+   own place; nothing else changes *)
+Theorem C15_roundtrip_raw_formatted : forall (p fuel buf : nat) (g g0 : grid R),
+  grid_wf g -> grid_wf g0 -> same_shape g0 g ->
+  read_raw Rops g0 (fmt_toks Rops p fuel (write_raw buf g))
+  = Some (set_data g0 (map (dec_round Rops p fuel) (gr_data g)), []).
+Proof. exact raw_formatted_roundtrip. Qed.
+Print Assumptions C15_roundtrip_raw_formatted.
+
+(* The unformatted form (cvm::memory_stream write_raw/read_raw) is exact for every carrier: the stream is the data
+   array, reading it back gives the same values, and a stream that is too short is rejected.  No assumption about
+   numbers is involved: this is the form for which the round trip is bit-exact. *)
+Theorem C15_roundtrip_raw_binary : forall (T : Type) (O : NumOps T) (g g0 : grid T) (rest : list (tok T)),
+  grid_wf g -> grid_wf g0 -> same_shape g0 g ->
+  write_raw_bin g = map TNum (gr_data g) /\
+  read_raw_bin O g0 (write_raw_bin g ++ rest) = Some (set_data g0 (gr_data g), rest) /\
+  (forall s, (lead O s < length (gr_data g0))%nat -> read_raw_bin O g0 s = None).
+Proof. exact raw_bin_roundtrip. Qed.
+Print Assumptions C15_roundtrip_raw_binary.
+
+(* Grids normalised by a sample-count grid (gradients / averages with `samples`): data/count is written and the
+   value read is multiplied by the count.  The data come back exactly where every bin without samples holds zero
+   (the invariant of the accumulators); a bin with data but no samples comes back as zero. *)
+Theorem C15_roundtrip_multicol_normalised : forall (counts : list R) (g g0 : grid R),
+  grid_wf g -> geom_wf g -> grid_wf g0 -> same_geom g0 g ->
+  Forall (fun c => (0 <= c)%R) counts -> length counts = npoints (gr_nx g) ->
+  zero_where_unsampled (gmult g) counts (gr_data g) ->
+  read_multicol_norm Rops counts g0 (write_multicol_norm Rops counts g) = Some (set_data g0 (gr_data g), []).
+Proof. exact multicol_norm_roundtrip. Qed.
+Print Assumptions C15_roundtrip_multicol_normalised.
+
+Theorem C15_normalised_unsampled_data_lost : forall v : R, v <> 0%R ->
+  denormalise Rops 1 [0%R] (normalise Rops 1 [0%R] [v]) = [0%R] /\ [0%R] <> [v].
+Proof. exact denorm_norm_unsampled. Qed.
+Print Assumptions C15_normalised_unsampled_data_lost.
+
+Example C15_example_round3_premises :
+  (powerRZ 10 (- Z.of_nat 0) <= Rabs 1)%R /\
+  zero_where_unsampled 2 [0; 3; 0; 1; 2; 5]%R [0; 0; 3; 4; 0; 0; 7; 8; 9; 10; 11; 12]%R /\
+  Forall (fun c => (0 <= c)%R) [0; 3; 0; 1; 2; 5]%R.
+Proof.
+  split; [|split].
+  - rewrite Rabs_R1. cbn. lra.
+  - cbn. repeat split; intros; try lra; repeat constructor.
+  - repeat constructor; lra.
+Qed.
